@@ -54,7 +54,8 @@ func loadDrivers(verifDir string) []replayDriver {
 func findDriver(verifDir, obligation string) *replayDriver {
 	for _, d := range loadDrivers(verifDir) {
 		for _, m := range d.Match {
-			if strings.HasPrefix(obligation, m) {
+			// (a contract-mismatch failure is named by the full package path)
+			if strings.HasPrefix(obligation, m) || strings.Contains(obligation, "/"+m) {
 				dd := d
 				return &dd
 			}
